@@ -1,4 +1,5 @@
 """C08 - the query cache only replays fresh, matching, successful answers (QCache facet)."""
+import mutators
 import simlib
 
 KEEP = {"init", "call", "ret", "adv", "sk", "cbb", "crash"}
@@ -16,4 +17,4 @@ def run(ctx):
     else:
         gens = [{"module": "Gen_C08.tla", "cfg": "Gen_C08_thorough.cfg", "name": "bfs"},
                 {"module": "Gen_C08.tla", "cfg": "Gen_C08_sim.cfg", "name": "sim", "simulate": 2500, "depth": 16}]
-    simlib.engine_check(ctx, gens, FACETS, labels=("c08.",))
+    simlib.engine_check(ctx, gens, FACETS, labels=("c08.",), selftests=mutators.QCACHE)
